@@ -326,6 +326,7 @@ class Unit:
         self.lenient = False     # lenient: sidecar blocks whose body anchor is lost are dropped instead of aborting
         self.dropped = []           # sidecar blocks (proof hints / loop invariants) whose anchor is lost
         self.dropped_rewrites = []  # rewrite rules whose pattern no longer occurs
+        self.unannotated = []       # functions whose body has more loops than the sidecar annotates
 
     def emit(self, text, src=None):
         for l in text.split("\n"):
@@ -357,6 +358,10 @@ class Unit:
                     subs.append((mm.group(1), unesc(mm.group(2)), unesc(mm.group(3)), (mm.group(4) if mm.group(4) == "*" else int(mm.group(4))) if mm.group(4) else None))
                     i += 1
                 self.do_item(args, subs, "%s:%d" % (rel, i))
+            elif st.startswith("//@implconsts"):
+                args, flags = parse_args(st[len("//@implconsts"):])
+                self.do_implconsts(args, "%s:%d" % (rel, i + 1))
+                i += 1
             elif st.startswith("//@fn"):
                 args, flags = parse_args(st[len("//@fn"):])
                 start = i
@@ -437,6 +442,34 @@ class Unit:
             self.lines.append((l, "%s:%d" % (args["file"], ln)))
         self.items.append({"kind": args["kind"], "name": args["name"], "file": args["file"], "line": ln,
                            "sha256": sha, "source_derive": derive})
+
+    def do_implconsts(self, args, where):
+        """copies every associated `const NAME: T = V;` of the named impl blocks (zero or more): code that starts
+        to use an impl-level constant stays verifiable"""
+        src = Source.get(args["file"])
+        try:
+            blocks = src.impl_blocks(args["impl"])
+        except ExtractError:
+            return
+        m = src.mask
+        for (b, e) in blocks:
+            depth = 0
+            i = b
+            while i < e:
+                ch = m[i]
+                if ch == "{":
+                    depth += 1
+                elif ch == "}":
+                    depth -= 1
+                elif depth == 1 and m.startswith("const ", i) and not (m[i - 1].isalnum() or m[i - 1] == "_"):
+                    end = m.find(";", i) + 1
+                    text = strip_docs_attrs(src.text[i:end], self.counts)
+                    self.emit("// @src %s:%d (associated const, verbatim)" % (args["file"], src.line_of(i)), None)
+                    self.emit("    pub " + text if not text.startswith("pub") else "    " + text, "%s:%d" % (args["file"], src.line_of(i)))
+                    self.counts["implconst"] = self.counts.get("implconst", 0) + 1
+                    i = end
+                    continue
+                i += 1
 
     def do_fn(self, args, flags, block, rel, startline):
         src = Source.get(args["file"])
@@ -587,6 +620,11 @@ class Unit:
                             break
                         j += 1
                     inserts.append((j, idx, ls, anchor, None))
+        n_loops = len(re.findall(r"\b(while|loop|for)\b", bm))
+        n_annot = len([1 for (a, _) in sections if a.startswith("loop#")])
+        if n_loops > n_annot:
+            # a loop without invariant makes everything after it unprovable: failures in this fn are UNDECIDED
+            self.unannotated.append("%s: %d loop(s) in the body, %d annotated" % (fid, n_loops, n_annot))
         inserts.sort(key=lambda x: (x[0], x[1]))
 
         # ---- assemble body as (text, srcline) pieces
@@ -742,6 +780,7 @@ class Unit:
             "line_src": [s for (t, s) in self.lines],
             "dropped_hints": self.dropped,
             "dropped_rewrites": self.dropped_rewrites,
+            "unannotated_loops": self.unannotated,
         }
 
 
